@@ -71,6 +71,10 @@ Step(ev) ==
          /\ Check(ev.g \in DOMAIN st.snap /\ ev.src \in DOMAIN st.snap[ev.g] /\ st.snap[ev.g][ev.src] = ev.got,
                   "lookup result is not the version of the tree it searched")
          /\ nlook' = nlook + 1 /\ UNCHANGED <<st, pending, swapped, tr>>
+    [] ev.ev = "diverged" ->
+         \* a schedule generated from the specification could not be replayed on the code
+         /\ Check(FALSE, "replayed schedule diverged from the specification")
+         /\ UNCHANGED <<st, pending, swapped, tr, nlook>>
     [] ev.ev = "crash" ->
          /\ Check(FALSE, "panic in the repository under concurrency")
          /\ UNCHANGED <<st, pending, swapped, tr, nlook>>
